@@ -1194,11 +1194,12 @@ func (self *ArbiterVoter) DoProposal() error {
 		self.proposalIndex = self.proposalId
 	}
 	self.proposalIndex++
+	proposalIndex := self.proposalIndex
 	self.glock.Unlock()
 
 	isReject := false
 	responses := self.DoRequests("do proposal", func(member *ArbiterMember) (interface{}, error) {
-		response, err := member.DoProposal(self.proposalIndex, self.voteHost, self.voteAofId)
+		response, err := member.DoProposal(proposalIndex, self.voteHost, self.voteAofId)
 		if err == ProposalRejectError {
 			isReject = true
 		}
@@ -1213,6 +1214,7 @@ func (self *ArbiterVoter) DoProposal() error {
 		return errors.New("member accept proposal count too small")
 	}
 	self.glock.Lock()
+	self.proposalIndex = proposalIndex
 	if self.proposalId < self.proposalIndex {
 		self.proposalId = self.proposalIndex
 	}
@@ -1231,6 +1233,7 @@ func (self *ArbiterVoter) DoCommit() error {
 		if self.proposalFromHost == self.manager.ownMember.host {
 			self.proposalHost = ""
 			self.proposalFromHost = ""
+			_ = self.manager.store.Save(self.manager)
 		}
 		self.glock.Unlock()
 		self.manager.slock.Log().Errorf("Arbier voter do commit fail")
